@@ -11,7 +11,7 @@ CLAIMED = {
     'C04': dict(engine='execsim', design='4.1',
                 technique='deterministic simulation: seeded override/query histories x 16 hash seeds, refinement against re-translation of the edited workbook in a pristine foreign process',
                 text='Seeded search over histories of set_cells/get_cell/get_cells/get_sheet calls (1-3 logical clients, 1-2 executors over one generated class, operation-level interleaving, 16 string-hash seeds) on generated workbooks; after every query the response must equal what a fresh Parser+Executor report for the workbook with each overridden cell replaced by its most recent constant (reference execution in a pristine process with another hash seed). Exploration, not proof: a clean batch is evidence over the sampled histories only.',
-                note='Trusts openpyxl to write the edited workbook faithfully (a read-back self-check discards runs whose planted constants do not survive the xlsx round trip), the re-translation path itself (functional defects shared by both paths cancel out by design), and the generator bounds (<=3 sheets, <=48 cells, <=30 operations). One recorded finding (whole-column references do not see overrides past the used range) is listed in known_findings.json and matched only after minimisation plus a counterfactual re-run.'),
+                note='Trusts openpyxl to write the edited workbook faithfully (a read-back self-check discards runs whose planted constants do not survive the xlsx round trip), the re-translation path itself (functional defects shared by both paths cancel out by design), and the generator bounds (<=3 sheets, <=48 cells, <=30 operations). One recorded finding (whole-column references do not see overrides past the used range) is listed in known_findings.json and matched only after minimisation plus a counterfactual re-run. The minimised plans of the two repaired defects are replayed on every run (regress/).'),
     'C08': dict(engine='execsim', design='4.2',
                 technique='deterministic simulation: seeded query histories over fixed overrides, every response compared with an isolated single query on a pristine executor in a foreign process',
                 text='Overrides are established once (one write per cell), then 6-80 queries from 1-3 logical clients through get_cell/get_cells/get_sheet with every addressing spelling, repeated and permuted, with evaluation failures in the middle and (on some runs) a simulated clock step between two bursts; each response must equal the value of one get_cell on a pristine executor (other process, other hash seed, same instant), get_sheet must have exactly the spec-derived shape, and sizes must be unchanged afterwards.',
@@ -21,9 +21,9 @@ CLAIMED = {
                 text='Decides ONLY the clause "behaves the same whether loaded from the written file or used as a class object": 2-4 variants of a generated workbook are translated and written to 1-3 output paths repeatedly, the paths are loaded through Executor.set_executed_class(class_file=...) into fresh executors between clock jumps (forward and backward, inside and across timestamp quanta), other tools leave bytecode-cache entries behind, and every cell of the file-loaded executor must equal the same cell of an executor given the class object exec\'d from the text the parser returned for that write.',
                 note='Totality, foreign exceptions and termination over arbitrary workbooks (the rest of C06) are a quantifier over inputs and are NOT decided here. File timestamps are re-stamped at close from the simulated clock; importlib itself is real. Bytecode writing is enabled at run time (the sandbox exports PYTHONDONTWRITEBYTECODE=1).'),
     'C12': dict(engine='clocksim', design='4.4',
-                technique='deterministic simulation: one translated criteria-matrix workbook evaluated along a seeded timeline of simulated instants/time zones (LD_PRELOAD clock shim), outcome of every TODAY-free cell must be time-invariant',
-                text='Decides ONLY the necessary condition that the positions selected by SUMIF/SUMIFS/COUNTIFS/AVERAGEIFS are a function of ranges and criteria and not of the day on which the formula is evaluated: every conditional-aggregate cell without TODAY() must give the identical outcome at 6-20 simulated instants covering every month-length class, month/year ends, zone changes and an auto-advancing clock.',
-                note='Does not decide whether the returned value is the right one (pure-input question, not claimed). One recorded finding (dateutil completes partial date texts from today) is listed in known_findings.json; it is attributed by a counterfactual re-run with the dateutil default pinned, so any other time dependence is still reported; half of all runs contain no date-like text at all and must be clean.'),
+                technique='deterministic simulation: one translated criteria-matrix workbook evaluated along a seeded timeline of simulated instants/time zones (LD_PRELOAD clock shim) interleaved with set_cells edits of criterion/range cells; every TODAY-free cell must be time-invariant within an override epoch and equal to a pristine executor given the same overrides',
+                text='Decides ONLY the necessary condition that the positions selected by SUMIF/SUMIFS/COUNTIFS/AVERAGEIFS are a function of the CURRENT ranges and criteria - not of the day on which the formula is evaluated and not of what the executor evaluated or was told before: every conditional-aggregate cell without TODAY() must give the identical outcome at all of 6-20 simulated instants (every month-length class, month/year ends, zone changes, auto-advancing clock) that lie in one override epoch, and on half of the runs, where cells that criteria and ranges read are edited through set_cells between instants and queries are permuted/repeated, the used executor must answer like a brand-new executor given the same overrides at the same instant.',
+                note='Does not decide whether the returned value is the right one (pure-input question, not claimed); the pristine executor runs the same generated class, so functional defects common to both cancel out. The defect this check found on the original tree (dateutil completing partial date texts from today) was repaired in 350f886; its minimised plan is replayed on every run (regress/).'),
     'C15': dict(engine='clocksim', design='4.5',
                 technique='deterministic simulation: TODAY() dashboard driven through seeded clock jumps (forward/backward), zone and DST changes under an LD_PRELOAD clock shim; responses checked against independent calendar arithmetic on the simulated instant',
                 text='Decides the clock-reachable part of C15: TODAY is the simulated local date at midnight in every zone/DST state, is not folded at translation or cached at construction, and YEAR/MONTH/DAY/DATE/EDATE/EOMONTH/DATEDIF(D,M,Y,YM)/NETWORKDAYS/IF computed from it follow the statement\'s definitions as simulated time passes (1971-2099), for both the generated class and a subclass of the importable base class.',
